@@ -25,9 +25,10 @@ ASSUMPTIONS = [
 ]
 BASE_US = 1_600_000_000_000_000
 
-WORDS = ["Firefox", "firefox", "FIREFOX", "vim", "Vim", "GitHub", "github.com", "ÄÖÜ", "äöü", "日本語", "a.b", "a+b", "(2) Facebook", "● file.py", "* gedit", "FPS: 59.2", "", " ", "İstanbul", "straße", "STRASSE"]
+WORDS = ["\u0131stanbul", "\u017fun", "\u212aelvin", "\u00b5m", "\u03c2\u03c3", "Firefox", "firefox", "FIREFOX", "vim", "Vim", "GitHub", "github.com", "ÄÖÜ", "äöü", "日本語", "a.b", "a+b", "(2) Facebook", "● file.py", "* gedit", "FPS: 59.2", "", " ", "İstanbul", "straße", "STRASSE"]
 REGEXES = ["Firefox", "firefox", "vim|Vim", "^Git", "hub$", "a.b", r"a\+b", "[A-Z]+", r"\d+", "äöü", "日本", "fire", ".", "x^", "(?:)", "i", "ß", "ss", r"\(2\)", "",
            # regexes that could run across the border between two values if those were ever searched as one text
+           "istanbul", "sun", "kelvin", "\u03bcm", "\u03c3\u03c3", r"^github\.com$", r"^https?$", r"^example\.com$",
            r"x\s", r"m\s+", r"[^a-z]G", r"\Wf", r"vim\nFire", r"(?s)m.F", r"^$", r"\A\Z", r"b$"]
 URL_KEYS = ["$protocol", "$domain", "$path", "$params", "$options", "$identifier"]
 
@@ -82,7 +83,7 @@ def strategy(draw, tier="quick"):
         url = draw(_url()) if draw(st.integers(0, 2)) > 0 else None
         if draw(st.integers(0, 9)) == 0:
             data["$category"] = ["Old"]
-        evs.append({"id": draw(st.one_of(st.none(), st.integers(0, 99))), "ts_ms": draw(st.integers(0, 10**6)), "dur_us": draw(st.integers(0, 10**7)), "data": data, "url": url})
+        evs.append({"presplit": draw(st.integers(0, 3)) == 0, "id": draw(st.one_of(st.none(), st.integers(0, 99))), "ts_ms": draw(st.integers(0, 10**6)), "dur_us": draw(st.integers(0, 10**7)), "data": data, "url": url})
     nr = draw(st.integers(0, 6))
     rules = []
     cats = [["A"], ["B"], ["A", "x"], ["B", "y"], ["A", "x", "1"], ["B", "y", "2"], ["Uncategorized"], ["C"]]
@@ -105,6 +106,10 @@ def _data(e):
     d = json.loads(json.dumps(e["data"]))
     if e["url"] is not None:
         d["url"] = _url_str(e["url"])
+        if e.get("presplit"):
+            # an event that already went through a URL split (or carries such keys for any other reason): ordinary data for everybody else
+            d["$domain"] = e["url"]["host"]
+            d["$protocol"] = e["url"]["scheme"]
     return d
 
 
